@@ -338,9 +338,9 @@ impl CJudge<'_> {
                         let z = &b.truth().zones[zi];
                         format!("{}|honest|{}|{}", a.detail, b.world.honest(&last.qname, last.qtype, true).kind, if !z.spec.signed { "unsigned" } else if z.spec.nsec3.is_some() { "nsec3" } else { "nsec" })
                     } else if last.faults.len() > 1 {
-                        format!("{}|multi-fault", a.detail)
+                        format!("{}|multi-fault:{}", a.detail, crate::fault_kinds(last.faults.iter().map(|f| f.kind.as_str())))
                     } else {
-                        format!("{}|{}|{}", a.detail, kind_base(&last.faults[0].kind), last.faults[0].link)
+                        format!("{}|{}|{}", a.detail, last.faults[0].kind, last.faults[0].link)
                     };
                     let (obs_json, ex_json) = match run_steps(&self.attacker, b, &min_steps) {
                         Ok(rs) => {
